@@ -252,6 +252,6 @@ def run(repo, res, tier):
     cl = df["deps"].get("clap")
     if cl:
         res.check("env" not in cl["features"], "D", "D:clap:no-env", f"clap {cl['version']} features {cl['features']}: no `env` (arguments are never read from environment variables)", cl["dir"])
-    res.floor("HASHORD", res.count("HASHORD"), 14)
-    res.floor("D", res.count("D"), 8)
-    res.floor("CONTROL", res.count("CONTROL"), 4)
+    res.floor("HASHORD", res.count("HASHORD"), 11)
+    res.floor("D", res.count("D"), 4)
+    res.floor("CONTROL", res.count("CONTROL"), 2)
